@@ -94,6 +94,15 @@ def units(tier):
     for fi, sp in ((False, False), (True, False), (True, True)):
         us.append(Unit('C03/D/MultiTaskBCD-extrapolation[intercept=%s,sparse=%s]' % (fi, sp), ST.u_multitask_acc,
                        dict(fit_intercept=fi, sparse=sp), wall_s=150, max_paths=3000, timeout_ms=8000, patched=True))
+    # reweighting (IterativeReweightedL1) decreases the objective only if the weights are the derivative of the concave function
+    # at |w| (tangent majoriser): C11's weight obligations re-used; and the CSC column slicing behind the sparse group constants
+    # (a wrong block constant turns a block step into an ascent step): C09's unit re-used
+    from checks import c11, c09
+    for pn in ('L0_5', 'LogSumPenalty'):
+        us.append(Unit('C03/K/reweighting-weights[%s]' % pn, c11.u_reweight_weights, dict(pen_name=pn), wall_s=60, timeout_ms=8000))
+    for pat, cols in (([[1, 0, 1], [1, 0, 1], [0, 0, 1]], [0, 1, 2]), ([[1, 0, 1], [1, 0, 0], [0, 0, 1]], [1, 2])):
+        us.append(Unit('C03/K/sparse_columns_slice[pattern=%s,cols=%s]' % (''.join(str(v) for r in pat for v in r), cols),
+                       c09.u_sparse_slice, dict(pattern=pat, cols=cols), wall_s=60))
     return us
 
 
